@@ -421,6 +421,10 @@ func (cx *Ctx) racePool() *Pool {
 func (cx *Ctx) evalReplay(rf *ReplayFile) (violated bool, key, what, fingerprint string) {
 	var results []JobResult
 	for i := range rf.Jobs {
+		if rf.Jobs[i].Pool == "none" {
+			results = append(results, JobResult{}) // placeholder: nothing to run in this slot
+			continue
+		}
 		p := cx.poolFor(rf.Jobs[i].Pool)
 		if p == nil {
 			cx.trouble("replay: unknown pool %q", rf.Jobs[i].Pool)
@@ -500,6 +504,35 @@ func (cx *Ctx) writeEvidence(cov map[string]any, assumptions []string) {
 		"wall clock / math/rand globals":        "simulated (run-spec values)",
 		"goroutine scheduling of callers":       "simulated (cooperative scheduler) in the simulated part; real in the adjunct runs",
 		"Monitor / Source callbacks":            "harness stubs driven by the run spec",
+	}
+	// self-check against what EVIDENCE.schema.json demands of an exploration-level file: an evidence file that would not
+	// validate is harness trouble, never a silent success
+	asInt := func(v any) int {
+		switch x := v.(type) {
+		case int:
+			return x
+		case int64:
+			return int(x)
+		case uint64:
+			return int(x)
+		case float64:
+			return int(x)
+		}
+		return -1
+	}
+	if cx.Scale >= 1 {
+		if n := asInt(cov["evaluations"]); n < 1 {
+			cx.trouble("evidence: coverage.evaluations = %v (must be a measured count >= 1)", cov["evaluations"])
+		}
+		if n := asInt(cov["distinct_nontrivial"]); n < 2 {
+			cx.trouble("evidence: coverage.distinct_nontrivial = %v (must be a measured count >= 2)", cov["distinct_nontrivial"])
+		}
+		if s, ok := cov["samples"].([]any); !ok || len(s) == 0 {
+			cx.trouble("evidence: coverage.samples is empty")
+		}
+		if s, ok := cov["rule"].(string); !ok || s == "" {
+			cx.trouble("evidence: coverage.rule is missing")
+		}
 	}
 	ev := Evidence{PropertyID: cx.Prop, Tier: cx.Tier, Seed: int64(cx.Seed), Level: "exploration", Coverage: cov,
 		Assumptions: assumptions, WallS: time.Since(cx.Start).Seconds(), Violations: nv}
